@@ -434,7 +434,7 @@ theorem step_iinvx (s s' : Sys) (l : Label) (hI : IInvX s) (h : step s l = some 
     · injection h with h; subst h
       exact hI.apiSame _ ⟨rfl, rfl, id, id⟩ rfl (by simp) rfl
     · injection h with h; subst h
-      refine hI.apiSame _ ⟨rfl, rfl, id, id⟩ rfl ?_ rfl
+      refine hI.apiSame _ ⟨rfl, rfl, fun h => absurd rfl h, id⟩ rfl ?_ rfl
       intro p hp; simp only [List.mem_singleton] at hp; subst hp; rfl
   | apiClose =>
     simp only [step] at h
